@@ -1035,3 +1035,35 @@ def r14_parked_storage_released_on_every_exit(ck, P, rid='C15-R14'):
                 ck.violation(R, f.name, 'exit without releasing the parked data (%s)' % f.unit.name, '%s has a path from the point where it parks an operand\'s rectangle array in old_data (%s) to its return that passes neither free (old_data) nor the NULL test that guards it: a failure on that path returns with the array leaked' % (f.name, d.loc()), d.loc())
     if n == 0:
         raise AnalysisBroken('%s: no function parks region data in a local named old_data' % rid)
+
+
+def r15_cleanup_loop_starts_at_the_first_element(ck, P, rid='C15-R15'):
+    """T-COUNT: on its failure exit the region validator releases the rectangle arrays of all the partial regions it has opened,
+    ri[0] .. ri[num_ri - 1].  ri[0] holds the array of the region being validated itself (the caller's region has been given the static
+    empty data by then), so a loop that starts at 1 leaks exactly that block on every failure."""
+    R = ck.rule(rid, 'in the region validator (both widths) every loop whose body does nothing but release storage (it calls free and no other function) over an index that counts up by one starts at index 0: the first element of the table of partial regions owns the validated region\'s own rectangle array', floor=2)
+    n = 0
+    for f in P.functions():
+        if f.unit.name not in ('pixman-region16.c', 'pixman-region32.c') or f.name != 'validate':
+            continue
+        for ph in f.insts():
+            if ph.op != 'phi' or ph.ty != 'i32' or len(ph.a) != 2:
+                continue
+            consts = [a for a in ph.a if a[0] == 'c']
+            steps = [f.v(a) for a in ph.a if a[0] == 'v']
+            if len(consts) != 1 or not steps or steps[0] is None or steps[0].op != 'add' or not any(list(a) == ['v', ph.i] for a in steps[0].a) or not any(a[0] == 'c' and int(a[1]) == 1 for a in steps[0].a):
+                continue
+            # the loop body: blocks on a path from the header back to the increment
+            body = f.reachable_blocks(ph.bb.id) & {b.id for b in f.blocks if steps[0].bb.id in f.reachable_blocks(b.id)}
+            calls = [q for b in body for q in f.blocks[b].insts if q.op == 'call' and not (isinstance(q.callee, str) and q.callee.startswith('llvm.'))]
+            if not calls or not all(q.callee == 'free' for q in calls):
+                continue
+            n += 1; ck.saw(f)
+            k = int(consts[0][1])
+            where = '%s (%s): release loop at %s' % (f.name, f.unit.name, ph.loc())
+            if k == 0:
+                ck.ok(R, where, 'from index 0')
+            else:
+                ck.violation(R, f.name, 'release loop starts at %d (%s)' % (k, f.unit.name), '%s releases the partial regions in a loop that starts at index %d (%s): element 0 - the rectangle array of the region under validation, which the caller no longer references once the region has been marked broken - is never freed when the validation fails' % (f.name, k, ph.loc()), ph.loc())
+    if n == 0:
+        raise AnalysisBroken('%s: no release loop found in the region validator' % rid)
